@@ -224,6 +224,9 @@ const (
 	OK        Verdict = "OK"
 	VIOLATION Verdict = "VIOLATION"
 	KNOWN     Verdict = "KNOWN-FINDING"
+	// UNDECIDED: the rule could not map the code onto the shapes it understands. It is reported and
+	// counted (obligations > discharged) but it is not an alarm: an alarm needs positive evidence.
+	UNDECIDED Verdict = "UNDECIDED"
 )
 
 type Obligation struct {
@@ -254,6 +257,7 @@ type Ctx struct {
 }
 
 func newCtx(w *World, prop, tier string) *Ctx {
+	currentWorld = w
 	return &Ctx{W: w, Prop: prop, Tier: tier, seenKeys: map[string]bool{}, Floors: map[string]int{}, Counts: map[string]int{}, Funcs: map[string]bool{}, Extra: map[string]interface{}{}}
 }
 
@@ -283,6 +287,30 @@ func (c *Ctx) bad(rule, construct string, pos token.Pos, why string) {
 	c.add(rule, construct, VIOLATION, pos, why)
 }
 
+// undecided records an obligation whose construct exists but whose shape the rule does not recognise.
+func (c *Ctx) undecided(rule, construct string, pos token.Pos, why string) {
+	c.add(rule, construct, UNDECIDED, pos, "not decided (unrecognised shape): "+why)
+}
+
+// tri-state for judge
+const (
+	holds = iota
+	broken
+	unknown
+)
+
+// judge records OK / VIOLATION / UNDECIDED.
+func (c *Ctx) judge(state int, rule, construct string, pos token.Pos, okWhy, badWhy string) {
+	switch state {
+	case holds:
+		c.ok(rule, construct, pos, okWhy)
+	case broken:
+		c.bad(rule, construct, pos, badWhy)
+	default:
+		c.undecided(rule, construct, pos, badWhy)
+	}
+}
+
 // check records OK when cond holds, else VIOLATION with the given explanation.
 func (c *Ctx) check(cond bool, rule, construct string, pos token.Pos, okWhy, badWhy string) bool {
 	if cond {
@@ -293,9 +321,26 @@ func (c *Ctx) check(cond bool, rule, construct string, pos token.Pos, okWhy, bad
 	return cond
 }
 
+// checkShape records OK when the expected structure was recognised, else UNDECIDED: failing to
+// recognise a structure is not evidence that the property is broken.
+func (c *Ctx) checkShape(cond bool, rule, construct string, pos token.Pos, okWhy, badWhy string) bool {
+	if cond {
+		c.ok(rule, construct, pos, okWhy)
+	} else {
+		c.undecided(rule, construct, pos, badWhy)
+	}
+	return cond
+}
+
 // missing records an anchor that could not be resolved: undecided is never reported as held.
 func (c *Ctx) missing(rule, construct, what string) {
 	c.add(rule, construct, VIOLATION, token.NoPos, "anchor not found: "+what+" (an unresolved obligation is not reported as held)")
+}
+
+// missingHelper: an unexported mechanism the rule looks into is gone or renamed. That is a change of
+// shape, not evidence against the property: undecided.
+func (c *Ctx) missingHelper(rule, construct, what string) {
+	c.add(rule, construct, UNDECIDED, token.NoPos, "not decided: helper not found: "+what)
 }
 
 func (c *Ctx) floor(rule string, n int) { c.Floors[rule] = n }
@@ -395,7 +440,7 @@ func (c *Ctx) finish(start time.Time, quiet bool, writeEvidence bool, seed int64
 	sort.Strings(rules)
 	for _, r := range rules {
 		if c.Counts[r] < c.Floors[r] {
-			c.add("FLOOR", r, VIOLATION, token.NoPos, fmt.Sprintf("mechanism not found: rule %s matched %d instance(s), confirmed floor is %d", r, c.Counts[r], c.Floors[r]))
+			c.add("FLOOR", r, UNDECIDED, token.NoPos, fmt.Sprintf("mechanism not found: rule %s matched %d instance(s), confirmed floor is %d: the code no longer has the shape this rule understands, nothing is claimed for it", r, c.Counts[r], c.Floors[r]))
 		}
 	}
 	known, _, err := loadKnown(filepath.Join(verifDir(), "KNOWN_FINDINGS.txt"))
@@ -424,8 +469,12 @@ func (c *Ctx) finish(start time.Time, quiet bool, writeEvidence bool, seed int64
 		os.RemoveAll(replayDir)
 	}
 	nOK := 0
+	nUndec := 0
 	for _, o := range c.Obs {
 		switch o.Verdict {
+		case UNDECIDED:
+			nUndec++
+			fmt.Printf("UNDECIDED %s  %s  %s\n", o.Key, o.Pos, o.Why)
 		case OK:
 			nOK++
 			if !quiet {
@@ -449,7 +498,7 @@ func (c *Ctx) finish(start time.Time, quiet bool, writeEvidence bool, seed int64
 	if writeEvidence {
 		c.writeEvidence(start, res, nOK, seed)
 	}
-	fmt.Printf("SUMMARY property=%s tier=%s obligations=%d ok=%d known=%d violations=%d functions=%d wall=%.2fs\n", c.Prop, c.Tier, len(c.Obs), nOK, res.known, res.violations, len(c.Funcs), time.Since(start).Seconds())
+	fmt.Printf("SUMMARY property=%s tier=%s obligations=%d ok=%d known=%d undecided=%d violations=%d functions=%d wall=%.2fs\n", c.Prop, c.Tier, len(c.Obs), nOK, res.known, nUndec, res.violations, len(c.Funcs), time.Since(start).Seconds())
 	return res
 }
 
@@ -469,6 +518,7 @@ func (c *Ctx) writeEvidence(start time.Time, res runResult, nOK int, seed int64)
 		"obligations":    len(c.Obs),
 		"discharged":     nOK,
 		"known_findings": res.known,
+		"undecided":      len(c.Obs) - nOK - res.known - res.violations,
 		"rule_instances": c.Counts,
 		"floors":         c.Floors,
 		"packages":       len(c.W.Pkgs),
